@@ -193,6 +193,15 @@ def retention_keeps_newest(ctx):
         if not asc:
             ctx.undecided(f'{f.qualname}:files removed', c, f'`{src(base)}` is not known to be sorted ascending', f)
             continue
+        # "newest" means the date in the file NAME (one file per day): an ordering by file metadata (mtime, ctime, size) ranks an
+        # old day's file that was touched, copied back or edited as new - and a newer day is removed in its place
+        for o in origins(base, f.node):
+            k = kwarg(o, 'key') if isinstance(o, ast.Call) else None
+            if k is not None and any(x in src(k) for x in ('getmtime', 'getctime', 'getatime', 'getsize', 'stat(', 'st_mtime', 'st_ctime', 'lstat')):
+                ctx.bad(f'{f.qualname}:files ordered by the date in their name', o, f'`{src(o)}` orders the old log files by `{src(k)}` (file metadata) instead of '
+                        'by name: a file of an old day that was touched recently counts as the newest and a newer day is deleted in its place', f)
+            elif isinstance(o, ast.Call) and dotted(o.func) == 'sorted':
+                ctx.ok(f'{f.qualname}:files ordered by the date in their name', o, f'`{src(o)[:80]}`', f)
         sl = it.slice
         if isinstance(sl, ast.Slice) and sl.lower is None and isinstance(sl.upper, ast.Name):
             # the bound is computed into a local first
